@@ -1477,6 +1477,12 @@ val lcp_all : str list -> str option
 
 val completer_update : uData -> nat -> str -> unit e
 
+val show_candidate : uData -> nat -> str list -> (str * nat) -> nat -> unit e
+
+val circular_branch :
+  uData -> config -> (nat -> cmd option e) -> str list -> (str * nat) -> nat
+  -> nat -> cmd -> cmd option e
+
 val complete_circular :
   uData -> config -> nat -> nat -> str list -> (str * nat) -> nat -> nat ->
   cmd option e
@@ -1490,6 +1496,10 @@ val wait_yn : uData -> config -> nat -> cmd -> cmd e
 val complete_line : uData -> config -> nat -> cmd option e
 
 val search_prompt : bool -> str -> str
+
+val isearch_branch :
+  uData -> config -> (str -> nat -> sdir -> bool -> cmd option e) ->
+  (str * nat) -> nat -> str -> nat -> sdir -> bool -> cmd -> cmd option e
 
 val isearch_loop :
   uData -> config -> nat -> (str * nat) -> nat -> str -> nat -> sdir -> bool
